@@ -1,11 +1,12 @@
 """C13 - Every bundled signature is reachable by the traffic it describes.
 
-Structural clauses decided (DESIGN.md §5 C13):
+Structural clauses decided:
  R1 form-pair coverage: every (extractor-constructible, parser-constructible) pair of window / TTL forms that
     overlaps (tables/spec_tables.json) is routed to an accepting arm of the distance function, never to `None`
  R2 request observations are looked up in the request tables, response observations in the response tables
     (matchers and the per-protocol result builders)
- (C02-R1/R2 index transparency and C03-R1 option walk are prerequisites checked under their own ids)
+ prerequisites evaluated here as well: C02.R1/R2 (index transparency), C03.R2/R2b (quirks), C03.R7 (window forms),
+ C12.R9 (optional headers), C12.R10 (exact-match relations)
 """
 import json
 import os
